@@ -153,6 +153,36 @@ impl AckFrame {
         self.ecn.take()
     }
 
+    /// Check that the ranges describe packet numbers: the first range must not reach below
+    /// packet number 0 (`first_range <= largest`) and neither may any following gap / range.
+    ///
+    /// See [RFC 9000 section 19.3.1](https://www.rfc-editor.org/rfc/rfc9000.html#name-ack-ranges):
+    /// if any computed packet number is negative, an endpoint MUST generate a connection error
+    /// of type FRAME_ENCODING_ERROR.  [`AckFrame::iter`] subtracts unchecked, so a frame received
+    /// from the peer must pass this check before it is iterated.
+    pub fn validate(&self) -> Result<(), crate::error::QuicError> {
+        let malformed = || {
+            crate::error::QuicError::new(
+                crate::error::ErrorKind::FrameEncoding,
+                self.frame_type().into(),
+                "ack ranges reach below packet number 0",
+            )
+        };
+        let mut smallest = self
+            .largest
+            .into_u64()
+            .checked_sub(self.first_range.into_u64())
+            .ok_or_else(malformed)?;
+        for (gap, range) in &self.ranges {
+            smallest = smallest
+                .checked_sub(gap.into_u64())
+                .and_then(|n| n.checked_sub(2))
+                .and_then(|n| n.checked_sub(range.into_u64()))
+                .ok_or_else(malformed)?;
+        }
+        Ok(())
+    }
+
     /// Iterate through the sequence numbers of the packets acknowledged by the iterative ACK frame,
     /// starting from the largest and going down.
     pub fn iter(&self) -> impl Iterator<Item = RangeInclusive<u64>> + '_ {
